@@ -1,6 +1,6 @@
 #!/bin/sh
 # runs every implemented check (quick tier, or "$1" = --thorough) in parallel and prints the exit codes
 cd "$(dirname "$0")/.."
-ls sa/props/c*.py | sed 's/.*\/c\([0-9]*\)\.py/C\1/' | xargs -P 16 -I{} sh -c './check {} '"$1"' > /tmp/runall_{}.out 2>&1; echo "{} rc=$?"' | sort | tr '\n' ' '
+ls sa/props/c*.py | sed 's/.*\/c\([0-9]*\)\.py/C\1/' | xargs -P 16 -I{} sh -c './check {} '"$1"' > /root/scratch/runall_{}.out 2>&1; echo "{} rc=$?"' | sort | tr '\n' ' '
 echo
-grep -l "^VIOLATION\|ANALYSIS-ERROR" /tmp/runall_C*.out 2>/dev/null
+grep -l "^VIOLATION\|ANALYSIS-ERROR" /root/scratch/runall_C*.out 2>/dev/null
